@@ -32,7 +32,7 @@ for sid in ids:
         if p not in CK.CHECKS:
             print(sid, p, "no check yet"); continue
         t0 = time.time()
-        r = sh("VERIF_TIER=%s /verif/bin/check %s" % (tier, p))
+        r = sh("VERIF_EVIDENCE_DIR=/verif/build/seed-evidence VERIF_TIER=%s /verif/bin/check %s" % (tier, p))
         viol = [l for l in r.stdout.splitlines() if l.startswith("VIOLATION")]
         rules = [l.strip() for l in r.stdout.splitlines() if l.strip().startswith("rule=")]
         res.setdefault(sid, {})[p + ":" + tier] = dict(detected=bool(viol) and r.returncode == 1, exit=r.returncode, first=rules[:2], wall=round(time.time() - t0, 1))
